@@ -11,7 +11,7 @@
    Proof file: stdlib only, nothing admitted, no axioms. *)
 From Coq Require Import List Arith Bool Lia.
 Import ListNotations.
-From EG Require Import Base Lemmas State StateLemmas Nbrs NbrsDecide NbrsGen Struct Cache CacheProofs Faults FaultsProofs
+From EG Require Import Base Lemmas State StateLemmas Nbrs NbrsDecide NbrsLink Struct Cache CacheProofs Faults FaultsProofs
   Trav TravState TravStateProofs TravCached TravCachedProofs TravFaults.
 
 (* ====================================================================================== *)
